@@ -413,6 +413,14 @@ def gen_c14(env, tier):
         dims = gen.dims(nd, n, extents)
         commons = [rnd.choice(cb.common_choices(rnd, d, e)) for d, e in zip(dims, extents)]
         idims = [canonical(env.iindex, d, c) for d, c in zip(dims, commons)]
+        if rnd.random() < 0.15:
+            # an index may carry an entry without rows (set_if, hand-built dicts; the library's validator accepts it): a
+            # category that holds no row matches no row, whether or not it is listed
+            for i, e in zip(idims, extents):
+                if rnd.random() < 0.6:
+                    v = rnd.choice([x for x in range(e + 2) if x != i.common] or [i.common + 1])
+                    if (v,) not in i:
+                        dict.__setitem__(i, (v,), np.array([], dtype=np.uint32))
         cube = env.ccube(idims)
         delivered, inner = [], []
         exc = None
@@ -474,6 +482,8 @@ def gen_twin_dims(env, tier, prop):
 def gen_c02_all(env, tier):
     gen_c02(env, tier)
     gen_twin_dims(env, tier, "C02")
+    from . import c13
+    c13.pooled_blocks(env, tier, own="C02", only="count")      # the count cube through the worker pool (scheduled threads)
     gen_live(env, tier, "C02")
     gen_live(env, tier, "C02", with_axes=True)      # dimensions with two or three axes grow in place between evaluations
 
